@@ -58,6 +58,10 @@ func init() {
 			if c.Index%3 == 0 {
 				p.Targets = three
 			}
+			if c.Index%2 == 0 {
+				p.PSlowPlugin = 35
+				p.PNoWait = 80
+			}
 			return p
 		})
 	s2Check("C02", "exploration", "runtime monitoring: online order monitor over decorated store / device calls (merge order, push order, push-after-merge, index monotonicity)",
@@ -81,7 +85,15 @@ func init() {
 	s2Check("C06", "exploration", "runtime monitoring: rollback verdicts, stored configuration and device vs the model's pre-change snapshots",
 		s2Rule, 150, 6000, map[string]int64{"rollbacks": 250, "executions_reaching_final_state": 100},
 		func(c *fw.Case) *engine.Profile {
-			return &engine.Profile{Targets: two, MinOps: 4, MaxOps: 10, PMulti: 30, PPoison: 8, PEq: 5, PDevReject: 5, PDelete: 40, PRollback: 40, PEnv: 10, PNoWait: 15, PSync: 30, PStartOffline: 10, PDevFault: 5, Paths: "rich"}
+			p := &engine.Profile{Targets: two, MinOps: 4, MaxOps: 10, PMulti: 30, PPoison: 8, PEq: 5, PDevReject: 5, PDelete: 40, PRollback: 40, PEnv: 10, PNoWait: 15, PSync: 30, PStartOffline: 10, PDevFault: 5, Paths: "rich"}
+			if c.Index%3 == 0 {
+				// changes validated while their predecessor is committed but not yet applied
+				p.PStartOffline, p.PEnv, p.PNoWait = 60, 25, 50
+			}
+			if c.Index%4 == 1 {
+				p.Targets, p.Paths = []string{"t1"}, "basic"
+			}
+			return p
 		})
 	s2Check("C09", "exploration", "runtime monitoring: stability detection + fixed-point pass (re-reconcile every object with fresh reconcilers) on the real controllers under schedule perturbation",
 		s2Rule, 200, 8000, map[string]int64{"fixed_point_passes": 120, "executions_reaching_final_state": 120},
